@@ -51,6 +51,11 @@ M = [
     ("bt-mcmc-acceptance-inverted", "votekit/ballot_generator.py",
      "                pref_interval[next(iter(current_ranking[j2]))]\n                / pref_interval[next(iter(current_ranking[j1]))],",
      "                pref_interval[next(iter(current_ranking[j1]))]\n                / pref_interval[next(iter(current_ranking[j2]))],", ["C16"]),
+    ("slate-bt-mcmc-aliased-states", "votekit/ballot_generator.py",
+     "            ballots[i] = current_ranking.copy()", "            ballots[i] = current_ranking", ["C16"]),
+    ("name-bt-mcmc-proposal-index-stuck-after-first-accept", "votekit/ballot_generator.py",
+     "            j1, j2 = swap_indices[i]\n            acceptance_prob = min(\n                1,\n                pref_interval",
+     "            j1, j2 = swap_indices[i if accept < 2 else accept]\n            acceptance_prob = min(\n                1,\n                pref_interval", ["C16"]),
     ("load-csv-dropna", "votekit/cvr_loaders.py", "df.groupby(ranks, dropna=False)", "df.groupby(ranks, dropna=True)", ["C18"]),
     ("lp-root-omitted", "votekit/metrics/distances.py", "lp_dist = sum ** (1 / p_value)", "lp_dist = sum", ["C19"]),
     ("stv-m-bound-off-by-one", "votekit/elections/election_types/ranking/stv.py",
